@@ -237,5 +237,33 @@ class TrigNormalizer:
         return s, c
 
 
+def abstract_exp(hyps, goal):
+    """replace every application u_exp(t) by a fresh positive real (generalisation: sound)"""
+    from .lib import f_exp
+    apps = {}
+
+    def walk(e, seen):
+        if e.get_id() in seen:
+            return
+        seen.add(e.get_id())
+        if z3.is_app(e):
+            if e.decl().eq(f_exp):
+                apps[e.get_id()] = e
+            for c in e.children():
+                walk(c, seen)
+    seen = set()
+    for h in list(hyps) + [goal]:
+        walk(h, seen)
+    if not apps:
+        return hyps, goal
+    subs, extra = [], []
+    for i, a in apps.items():
+        v = z3.Real("E!%d" % i)
+        subs.append((a, v))
+        extra.append(v > 0)
+    return [z3.substitute(h, *subs) for h in hyps] + extra, z3.substitute(goal, *subs)
+
+
 def normalise(hyps, goal):
-    return TrigNormalizer().normalise(hyps, goal)
+    hyps, goal = TrigNormalizer().normalise(hyps, goal)
+    return abstract_exp(hyps, goal)
